@@ -5,7 +5,7 @@
 (* The /verif correlation templates are delimiter-structured (code points  *)
 (* 30 RS, 31 US, 29 GS never occur in rule content):                       *)
 (*   query      == search RS typing RS aggregate RS condition              *)
-(*   search     == "SINGLE" GS query GS normalization                      *)
+(*   search     == "SINGLE" GS ruleid GS query GS normalization            *)
 (*               | "MULTI" US item (US item)*   item == ruleid GS query GS normalization *)
 (*   normalization == alias=field (;alias=field)*                          *)
 (*   typing     == "" | "TYPING" US ruleid GS query (US ...)*              *)
@@ -59,7 +59,7 @@ Search(c, rules, alone, B, map) ==
                     LET k == c.refs[i] sq == SubQueries(alone, k, B.optin) IN
                     [j \in 1..Len(sq) |-> [id |-> RuleId(rules[k]), q |-> sq[j], n |-> Normalization(c, k, map)]]])
     IN  IF Len(c.refs) = 1 /\ Len(items) = 1
-        THEN T_SINGLE \o GS \o items[1].q \o GS \o items[1].n
+        THEN T_SINGLE \o GS \o items[1].id \o GS \o items[1].q \o GS \o items[1].n     \* tagged with its name or id as well
         ELSE T_MULTI \o US \o Join([i \in 1..Len(items) |-> items[i].id \o GS \o items[i].q \o GS \o items[i].n], US)
 Typing(c, rules, alone, B) ==
     IF ~B.typing THEN <<>>
